@@ -12,11 +12,13 @@ import (
 	"bytes"
 	"fmt"
 	"io"
+	"os"
 	"reflect"
 	"runtime"
 	"runtime/metrics"
 	"sort"
 	"strings"
+	"time"
 
 	hessian "github.com/vogo/gohessian"
 )
@@ -498,7 +500,30 @@ func c14Leak(ch *Choices, cfg *RunCfg, o *Outcome) {
 	}
 }
 
+// runC14 wraps the run with the goroutine oracle: the decoder entry points are synchronous calls, so
+// whatever they start must have ended soon after the last of them returned. Goroutines that are still
+// alive two seconds later (real time, waited for only when the count is up) were left behind by a decode -
+// a leak per call that no per-call budget sees.
 func runC14(ch *Choices, cfg *RunCfg) (o *Outcome) {
+	g0 := runtime.NumGoroutine()
+	o = runC14Body(ch, cfg)
+	if runtime.NumGoroutine() > g0 {
+		deadline := time.Now().Add(2 * time.Second)
+		for runtime.NumGoroutine() > g0 && time.Now().Before(deadline) {
+			time.Sleep(5 * time.Millisecond)
+		}
+		if n := runtime.NumGoroutine() - g0; n > 0 {
+			o.fail("c14/leak", "goroutines", "%d goroutine(s) started during the run's decode calls are still alive 2 s after the last call returned: every decode leaves something running behind", n)
+		}
+	}
+	o.Probes["goroutine count compared before / after the run's decode calls"]++
+	if os.Getenv("VF_DEBUG_STEPS") != "" { // development aid: where does the simulated time go
+		fmt.Fprintf(os.Stderr, "STEPS %d %v\n", o.Steps, o.Sample)
+	}
+	return o
+}
+
+func runC14Body(ch *Choices, cfg *RunCfg) (o *Outcome) {
 	o = newOutcome()
 	c14Calibrate()
 	c14ZeroEvery = 0
@@ -632,8 +657,12 @@ func runC14(ch *Choices, cfg *RunCfg) (o *Outcome) {
 	if cfg.Tier == "thorough" {
 		limit = 6000
 	}
-	if n > 0 && limit > 3_000_000/n {
-		limit = 3_000_000/n + 20 // bound the bytes decoded per run: long streams get strided cut offsets
+	perKind := 1_500_000 // bytes decoded per run and fault kind, at most: long streams get strided cut offsets
+	if cfg.Tier == "thorough" {
+		perKind = 3_000_000
+	}
+	if n > 0 && limit > perKind/n {
+		limit = perKind/n + 20
 	}
 	if n > limit {
 		stride = n/limit + 1
